@@ -18,3 +18,28 @@ def _compute_rise_curve(specific_yield, zeta_grid_mm, mean_storage_mm, result):
     loop(0, inv=lambda it: i == it + 1 and len(dW_mm) == len(zeta_grid_mm) and dW_mm[0] == 0
          and forall(1, it + 1, lambda k: dW_mm[k] == G_of(specific_yield._spline, zeta_grid_mm[k])
                     - G_of(specific_yield._spline, zeta_grid_mm[k - 1])))
+
+
+@contract("spowtd.simulate_recession:compute_recession_curve",
+          args={"specific_yield": "obj[spowtd.specific_yield:SpecificYield]", "transmissivity_m2_d": "fn",
+                "zeta_grid_mm": "array[real]", "mean_elapsed_time_d": "real", "curvature_km": "real", "et_mm_d": "real"},
+          returns="array[real]", ghost_results={"g_Q": "fn"}, nonlinear="nra")
+def _compute_recession_curve(specific_yield, transmissivity_m2_d, zeta_grid_mm, mean_elapsed_time_d, curvature_km,
+                             et_mm_d, result):
+    """C18: between any two grid levels the elapsed time differs by Q(z_j) - Q(z_i), Q being the
+    antiderivative (assumed contract of quad) of the function handed to quad, and that function is
+    Sy(z) / (-ET - curvature * T(z)) at every level (ghost cut)."""
+    requires(len(zeta_grid_mm) >= 1)
+    requires(len(specific_yield._spline._tck[0]) >= 2 and lo_knot(specific_yield._spline) < hi_knot(specific_yield._spline))
+    requires(et_mm_d >= 0 and curvature_km >= 0 and (et_mm_d > 0 or curvature_km > 0))
+    requires(forall_real(lambda z: transmissivity_m2_d(z) > 0))
+    ghost(after="def f(", let="g_Q", do=lambda: antiderivative_of(f))
+    ghost(after="def f(", do=lambda: cut(forall_real(lambda z: f(z) == S_of(specific_yield._spline, clamp(specific_yield._spline, z))
+                                                   / (-et_mm_d - curvature_km * transmissivity_m2_d(z)))))
+    ghost(after="elapsed_time_d = np.cumsum(", let="g_G", do=lambda: [g_Q(zeta_grid_mm[k]) for k in range(len(zeta_grid_mm))])
+    ghost(after="elapsed_time_d = np.cumsum(", do=lambda: telescoping(dt_d, elapsed_time_d, g_G))
+    ensures(len(result) == len(zeta_grid_mm))
+    ensures(forall(0, len(result), lambda i: forall(0, len(result), lambda j:
+            result[j] - result[i] == g_Q(zeta_grid_mm[j]) - g_Q(zeta_grid_mm[i]))))
+    loop(0, inv=lambda it: i == it + 1 and len(dt_d) == len(zeta_grid_mm) and dt_d[0] == 0
+         and forall(1, it + 1, lambda k: dt_d[k] == g_Q(zeta_grid_mm[k]) - g_Q(zeta_grid_mm[k - 1])))
